@@ -131,6 +131,307 @@ func main() {
 	fmt.Println(x)
 }
 `,
+	// regression program of the repair of F19-1: two loops (F19-1/v1_two_loops.go)
+	`package main
+
+import "fmt"
+
+func main() {
+	x := 0
+	for x < 2 { // BP
+		x++
+	}
+	y := 0
+	for y < 3 { // BP
+		y++
+	}
+	fmt.Println(x, y)
+}
+
+// want: brk:7 brk:7 brk:7 brk:11 brk:11 brk:11 brk:11
+`,
+	// nested loops (F19-1/v2_nested.go)
+	`package main
+
+import "fmt"
+
+func main() {
+	n := 0
+	i := 0
+	for i < 2 { // BP
+		j := 0
+		for j < 2 { // BP
+			n += i + j
+			j++
+		}
+		i++
+	}
+	fmt.Println(n)
+}
+
+// want: brk:8 brk:10 brk:10 brk:10 brk:8 brk:10 brk:10 brk:10 brk:8
+`,
+	// labelled continue, loop without condition (F19-1/v5_continue_label.go)
+	`package main
+
+import "fmt"
+
+func main() {
+	n := 0
+outer:
+	for i := 0; i < 3; i++ {
+		j := 0
+		for j < 3 { // BP
+			j++
+			if j == 2 {
+				n += 10 // BP
+				continue outer
+			}
+			n++
+		}
+	}
+	fmt.Println(n)
+	k := 0
+	for {
+		k++ // BP
+		if k == 3 {
+			break
+		}
+	}
+	fmt.Println(k)
+}
+
+// want: brk:10 brk:10 brk:13 brk:10 brk:10 brk:13 brk:10 brk:10 brk:13 brk:22 brk:22 brk:22
+`,
+	// a loop in a function entered several times, goto loop (F19-1/v6_goto_func.go)
+	`package main
+
+import "fmt"
+
+func count(n int) int {
+	c := 0
+	for c < n { // BP
+		c++
+	}
+	return c
+}
+
+func main() {
+	fmt.Println(count(1), count(0), count(2))
+	i := 0
+loop:
+	if i < 2 { // BP
+		i++
+		goto loop
+	}
+	fmt.Println(i)
+}
+
+// want: brk:7 brk:7 brk:7 brk:7 brk:7 brk:7 brk:17 brk:17 brk:17
+`,
+	// three-clause loop with its clauses on three lines (F19-1/v3_three_clause.go)
+	`package main
+
+import "fmt"
+
+func main() {
+	s := 0.0
+	for i := 0.5; // BP
+	i < 3;        // BP
+	i++ {         // BP
+		s += i
+	}
+	fmt.Println(s)
+}
+
+// want: brk:7 brk:8 brk:9 brk:8 brk:9 brk:8 brk:9 brk:8
+`,
+	// range loops (F19-1/v4_body_range.go)
+	`package main
+
+import "fmt"
+
+func main() {
+	t := ""
+	for _, s := range []string{"a", "b", "c"} {
+		t += s // BP
+	}
+	for k := range map[int]bool{1: true} {
+		t += fmt.Sprint(k) // BP
+	}
+	for _, r := range "xy" {
+		t += string(r) // BP
+	}
+	fmt.Println(t)
+}
+
+// want: brk:8 brk:8 brk:8 brk:11 brk:14 brk:14
+`,
+	// regression program of the repair of F20: else-if chain (F20/v2_elseif_chain.go)
+	`package main
+
+import "fmt"
+
+func classify(n int) string {
+	r := ""
+	if n < 0 {
+		r = "neg" // BP
+	} else if n == 0 {
+		r = "zero" // BP
+	} else if n < 10 {
+		r = "small" // BP
+	} else {
+		r = "big" // BP
+	}
+	return r
+}
+
+func main() {
+	fmt.Println(classify(5), classify(-1), classify(100), classify(0))
+}
+
+// want: brk:12 brk:8 brk:14 brk:10
+`,
+	// switch (F20/v3_switch.go)
+	`package main
+
+import "fmt"
+
+func main() {
+	x := 0.0
+	for _, k := range []int{2, 0, 3, 1} {
+		switch k {
+		case 0:
+			x = 1.5 // BP
+		case 1:
+			x = 2.5 // BP
+		case 2:
+			x = 3.5 // BP
+		default:
+			x = 4.5 // BP
+		}
+		fmt.Println(x)
+	}
+}
+
+// want: brk:14 brk:10 brk:16 brk:12
+`,
+	// calls in both arms (F20/v4_calls.go)
+	`package main
+
+import "fmt"
+
+type T struct{ n int }
+
+func (t *T) inc() { t.n++ }
+func (t *T) dec() { t.n-- }
+
+func main() {
+	t := &T{}
+	for _, up := range []bool{false, true, true, false, false} {
+		if up {
+			t.inc() // BP
+		} else {
+			t.dec() // BP
+		}
+	}
+	if t.n < 0 {
+		fmt.Println("negative", t.n) // BP
+	} else {
+		fmt.Println("positive", t.n) // BP
+	}
+}
+
+// want: brk:16 brk:14 brk:14 brk:16 brk:16 brk:20
+`,
+	// short circuits, returns in both arms (F20/v6_shortcircuit_return.go)
+	`package main
+
+import "fmt"
+
+func f(a, b int) int {
+	if a > 0 && b > 0 || a < -5 {
+		return 1 // BP
+	}
+	return 2 // BP
+}
+
+func g(m map[string]int, k string) int {
+	if v, ok := m[k]; ok {
+		return v // BP
+	} else {
+		return -1 // BP
+	}
+}
+
+func main() {
+	fmt.Println(f(1, 1), f(1, 0), f(-6, 0), f(0, 3))
+	m := map[string]int{"a": 7}
+	fmt.Println(g(m, "b"), g(m, "a"))
+}
+
+// want: brk:7 brk:9 brk:7 brk:9 brk:16 brk:14
+`,
+	// type switch, break and continue in both arms (F20/v7_typeswitch_break.go)
+	`package main
+
+import "fmt"
+
+func main() {
+	n := 0
+	for _, v := range []interface{}{"s", 1, 2.0, 3, "t"} {
+		switch v.(type) {
+		case int:
+			n += 1 // BP
+		case string:
+			n += 10 // BP
+		default:
+			n += 100 // BP
+		}
+	}
+	fmt.Println(n)
+	for i := 0; ; i++ {
+		if i > 2 {
+			n-- // BP
+			break
+		} else {
+			n++ // BP
+			continue
+		}
+	}
+}
+
+// want: brk:12 brk:10 brk:14 brk:10 brk:12 brk:23 brk:23 brk:23 brk:20
+`,
+	// a generic function (F19-2: line requests make SetBreakpoints panic) (F19-1/v8_generic.go)
+	`package main
+
+import "fmt"
+
+func index[T comparable](a []T, v T) int {
+	r := -1
+	i := 0
+	for i < len(a) {
+		if a[i] == v {
+			r = i
+		} else {
+			r = -2
+		}
+		i++
+	}
+	return r
+}
+
+func main() {
+	fmt.Println(index([]int{1, 2}, 1))
+	fmt.Println(index([]string{"x"}, "x"))
+	fmt.Println(index([]int{3}, 4))
+}
+
+// No line breakpoint here: SetBreakpoints panics on a program with a generic
+// function (it generates the closures of the template), before and after the patch.
+// want i*: entry:20 into:20 into:20 into:6 into:6 into:7 into:8 into:8 into:9 into:9 into:10 into:9 into:9 into:14 into:8 into:8 into:8 into:9 into:9 into:12 into:12 into:11 into:9 into:14 into:8 into:8 into:8 into:8 into:16 into:20 into:20 into:21 into:21 into:21 into:6 into:6 into:7 into:8 into:8 into:9 into:9 into:10 into:9 into:9 into:14 into:8 into:8 into:8 into:8 into:16 into:21 into:21 into:22 into:22 into:22 into:6 into:6 into:7 into:8 into:8 into:9 into:9 into:12 into:12 into:11 into:9 into:14 into:8 into:8 into:8 into:8 into:16 into:22 into:22 into:19
+`,
 }
 
 func fixedProg(src string) progT {
@@ -138,7 +439,7 @@ func fixedProg(src string) progT {
 	for _, l := range strings.Split(src, "\n") {
 		if strings.HasPrefix(l, "func ") {
 			name := strings.TrimPrefix(l, "func ")
-			if i := strings.IndexByte(name, '('); i > 0 {
+			if i := strings.IndexAny(name, "(["); i > 0 {
 				p.Funcs = append(p.Funcs, name[:i])
 			}
 		}
